@@ -578,6 +578,8 @@ def make_items(ctx, rng, consts, arches, npol, nev):
                 prober += "+race"     # another thread loads a different policy at the same time
             elif r > 0.88:
                 prober += "+twice"    # the loading thread already carries an (almost never matching) filter
+            if "+race" not in prober and rng.random() < 0.15:
+                prober += "+gc"       # garbage collections and same-size allocations between prctl and seccomp
             if rng.random() < 0.15:
                 prober += "+edited"   # the loaded Policy value was assembled and dumped before, then edited in place
         dw = pol["default"]
@@ -617,7 +619,7 @@ def check_C08(ctx, replay=None):
         probes_judged=stats["probes"], programs_compared=stats["compared_programs"], children=stats["children"],
         traces_validated_against_impl=stats["children"],
         distinct_nontrivial=len(stats["nontrivial"]),
-        rule="seeded policies over the nine harmless probe system calls (names only; conditions on all six arguments with operands straddling the 32-bit halves; several groups with the same call, first match decides; name lists over 255 and condition lists over 1000 instructions; one program over 4096 instructions that must be refused), default allow/log, actions errno / raw errno data words / allow / log / trace / trap / kill_process, flags in {0,tsync,log,tsync|log}, with and without no_new_privs, as root and (with no_new_privs) as uid nobody, probes from the loading thread or from a second OS thread that existed before the load; each policy loaded by the real LoadFilter in a fresh child - plainly, or with another thread carrying a divergent filter (+div), another thread loading at the same moment (+race), as the thread's second filter (+twice), or through a Policy value that was assembled and dumped with other rules before and then edited in place (+edited); the captured sock_fprog compared in length and instruction by instruction with the implementation's compiled program and the model's; every probe's errno/result/death compared with the extracted decide. non-trivial = distinct (policy, probe) pairs whose specified decision differs from the default action's",
+        rule="seeded policies over the nine harmless probe system calls (names only; conditions on all six arguments with operands straddling the 32-bit halves; several groups with the same call, first match decides; name lists over 255 and condition lists over 1000 instructions; one program over 4096 instructions that must be refused), default allow/log, actions errno / raw errno data words / allow / log / trace / trap / kill_process, flags in {0,tsync,log,tsync|log}, with and without no_new_privs, as root and (with no_new_privs) as uid nobody, probes from the loading thread or from a second OS thread that existed before the load; each policy loaded by the real LoadFilter in a fresh child - plainly, or with another thread carrying a divergent filter (+div), another thread loading at the same moment (+race), as the thread's second filter (+twice), with two garbage collections and a burst of program-sized allocations between the prctl and seccomp steps (+gc), or through a Policy value that was assembled and dumped with other rules before and then edited in place (+edited); the captured sock_fprog compared in length and instruction by instruction with the implementation's compiled program and the model's; every probe's errno/result/death compared with the extracted decide. non-trivial = distinct (policy, probe) pairs whose specified decision differs from the default action's",
         counterexamples=stats["nbad"], correspondence_differences=stats["ndiff"], probes_not_observed=stats["unobserved"],
         input_distribution=dict(cases=dist, outcomes=stats["outcomes"], load_refused=stats["load_errors"],
                                 program_length=dict(min=min(lens) if lens else 0, max=max(lens) if lens else 0,
